@@ -126,7 +126,7 @@ HasFe(ty) == "fe" \in DOMAIN ty
 PromotedNames(ty) == IF ~HasFe(ty) THEN {} ELSE
   UNION {{Lower1(Ty(ty.ft[j]).fn[k]) : k \in 1..Len(Ty(ty.ft[j]).fn)}
          : j \in {i \in 1..Len(ty.fn) : ty.fe[i] = 1 /\ Ty(ty.ft[i]).kind = "struct"}}
-UnknownNames(ty) == {UnknownName} \cup NearNames(ty) \cup (PromotedNames(ty) \ {Lower1(ty.fn[j]) : j \in 1..Len(ty.fn)})
+UnknownNames(ty) == {UnknownName, <<>>} \cup NearNames(ty) \cup (PromotedNames(ty) \ {Lower1(ty.fn[j]) : j \in 1..Len(ty.fn)})
 DefOctets(ty, order, upper, unk) ==
   LET name == IF ty.hasreg = 1 THEN ty.reg ELSE ty.name
       RECURSIVE Names(_)
